@@ -128,8 +128,15 @@ extern "C" void h_rem() {
     i128 x = (a.k == K_REAL) ? (i128)(i64)b2d(a.b) : ival(a.k, a.b);
     i128 y = (b.k == K_REAL) ? (i128)(i64)b2d(b.b) : ival(b.k, b.b);
     bool big_nat = (a.k == K_NAT && a.b > (u64)I64_MAX) || (b.k == K_NAT && b.b > (u64)I64_MAX);
-    bool zero = (y == 0);
+    bool zero = ((i64)y == 0);                             // 64-bit form (y is a 64-bit word zero- or sign-extended)
     bool ovf  = ((i64)x == I64_MIN && (i64)y == -1);         // as 64-bit signed words: the hardware remainder traps although the result (0) is representable
+    // DIVCLS splits the divisor (as a truncated 64-bit signed word) into classes, one query each, so that the solver never has to
+    // relate the engine's guarded remainder to the reference across the special cases: 0 = zero, 1 = minus one, 2 = anything else
+#ifdef DIVCLS
+    if (DIVCLS == 0) vf_assume(zero);
+    else if (DIVCLS == 1) vf_assume(!zero && (i64)y == -1);
+    else vf_assume(!zero && (i64)y != -1);
+#endif
 #ifdef KF_EXCL_C04_rem_zero
     vf_assume(!zero);
 #endif
@@ -250,8 +257,12 @@ static Opd pick_integral(int spec, u64 mask, bool fixed, i64 fixed_val) {   // i
 }
 extern "C" void h_pow() {
     Opd a = pick_integral(LK, PB_MASK, false, 0); Opd b = pick_integral(RK, 0xFFu, true, PE);
-    bool xneg = (a.k == K_INT) ? ((i64)a.b < 0) : ((a.k == K_REAL) ? (b2d(a.b) < 0.0) : false);
-    u64  mx = (a.k == K_NAT) ? a.b : ((a.k == K_INT) ? (xneg ? (0ULL - a.b) : a.b) : (u64)(xneg ? -b2d(a.b) : b2d(a.b)));
+    QE l, r; mk(l, a.k, a.b); mk(r, b.k, b.b);
+    // the reference reads the payload back from the operand object (volatile: no store forwarding), so that both sides start from
+    // the same memory expression - the 64-bit multiplier / divider equivalence is then syntactic for the SMT back end
+    const u64 ab = *(volatile u64 *)&l.Value.Number.Natural;
+    bool xneg = (a.k == K_INT) ? ((i64)ab < 0) : ((a.k == K_REAL) ? (b2d(ab) < 0.0) : false);
+    u64  mx = (a.k == K_NAT) ? ab : ((a.k == K_INT) ? (xneg ? (0ULL - ab) : ab) : (u64)(xneg ? -b2d(ab) : b2d(ab)));
     const unsigned e = (PE < 0) ? unsigned(-(PE)) : unsigned(PE);
     bool neg_even = xneg && (PE < 0) && ((e & 1u) == 0);
 #ifdef KF_EXCL_C04_pow_neg_even_sign
@@ -261,7 +272,6 @@ extern "C" void h_pow() {
     vf_assume(neg_even);
 #endif
     if (PE <= 0) vf_assume(mx != 0);                      // 0^0 and 0^-n: see open questions (engine: 0)
-    QE l, r; mk(l, a.k, a.b); mk(r, b.k, b.b);
     TC tc{nullptr, 0};
     bool ok = tc.evaluateExpression(l, r, OP::Exponent);
     vf_assert(ok, 1);
